@@ -129,9 +129,74 @@ package sync
 //@   ensures [C03] non-adjacent-untouched: asNonAdj(result) != nil ==> storeAppends == old(storeAppends)
 //@   ensures [C03] adjacent: result == nil && len(headers) > 0 && hderr == nil && headers[0].Height() >= hd.Height() ==> forall i int :: 0 <= i && i < len(headers) ==> headers[i].Height() == u64(hd.Height() + 1 + i)
 //@   ensures [C03] at-most-one-inner-append: storeAppends <= old(storeAppends) + 1
+//@   effect appendedTop := ite(result == nil && len(headers) > 0, headers[len(headers) - 1].Height(), old(appendedTop))
 //@ loop 0:
 //@   invariant bounds: -1 <= rangeindex && rangeindex + 1 <= len(headers)
 //@   invariant chain: forall i int :: 0 <= i && i <= rangeindex ==> headers[i].Height() == u64(hd.Height() + 1 + i)
 //@   invariant head: head.Height() == u64(hd.Height() + 1 + rangeindex) && storeAppends == old(storeAppends)
 //@   invariant frame: unchanged("elems(H)")
 //@   decreases len(headers) - rangeindex
+
+// ---- sync loop (C07): progress and completeness of requestHeaders under the Getter contract
+
+//@ ghost var appendedTop uint64 -- height of the last header the sync loop handed to the store
+
+//@ func (*Syncer).requestHeaders(s, ctx, fromHead, to)
+//@   props C07, C03
+//@   requires verified(fromHead) && to < MaxUint64
+//@   unreachable return1, return2 : the empty-range and non-adjacent-range checks are dead code for a contract-abiding getter
+//@   modifies AP_set, AP_val_Hdr, ghost:storeAppends, ghost:appendedTop, errNonAdjacent.Head, errNonAdjacent.Attempted, $now
+//@   ensures [C07] reaches-target: result == nil && fromHead.Height() < to ==> appendedTop == to
+//@   ensures [C07] nothing-to-do: fromHead.Height() >= to ==> result == nil && appendedTop == old(appendedTop)
+//@ loop 0:
+//@   invariant [C07] progress: (fromHead.Height() <= to || fromHead.Height() == old(fromHead).Height()) && old(fromHead).Height() <= fromHead.Height() && verified(fromHead)
+//@   invariant [C07] appended: fromHead.Height() > old(fromHead).Height() ==> appendedTop == fromHead.Height()
+//@   invariant [C07] untouched: fromHead.Height() == old(fromHead).Height() ==> appendedTop == old(appendedTop)
+//@   decreases [C07] to - fromHead.Height()
+
+// ---- pending ranges: bounds safety of the range arithmetic (C07)
+
+//@ pure rangeOK(r) = r.start + len(r.headers) <= MaxUint64 && forall k int :: off(r.headers) <= k && k < off(r.headers) + len(r.headers) ==> at(r.headers, k).Height() == r.start + (k - off(r.headers))
+
+//@ func (*headerRange).rangeAmount(r, end)
+//@   props C07
+//@   ensures [C07] bounded: result <= len(r.headers)
+//@   ensures [C07] upto-end: rangeOK(r) ==> forall k int :: off(r.headers) <= k && k < off(r.headers) + result ==> at(r.headers, k).Height() <= end
+//@   ensures [C07] maximal: rangeOK(r) && result < len(r.headers) ==> at(r.headers, off(r.headers) + result).Height() > end
+
+//@ func (*headerRange).Get(r, end)
+//@   props C07
+//@   ensures [C07] prefix: len(result) <= len(r.headers) && arr(result) == arr(r.headers) && off(result) == off(r.headers)
+//@   ensures [C07] upto-end: rangeOK(r) ==> forall k int :: off(result) <= k && k < off(result) + len(result) ==> at(result, k).Height() <= end
+//@   ensures [C07] maximal: rangeOK(r) && len(result) < len(r.headers) ==> at(r.headers, off(r.headers) + len(result)).Height() > end
+
+//@ func (*headerRange).Remove(r, end)
+//@   props C07
+//@   requires [C07,C03] stored-first: rangeOK(r) ==> forall k int :: off(r.headers) <= k && k < off(r.headers) + len(r.headers) && at(r.headers, k).Height() <= end ==> at(r.headers, k).Height() <= appendedTop
+//@   modifies headerRange.headers, headerRange.start
+//@   ensures [C07] suffix: len(r.headers) <= len(old(r.headers)) && arr(r.headers) == arr(old(r.headers))
+//@   ensures [C07] removed: old(rangeOK(r)) ==> forall k int :: off(r.headers) <= k && k < off(r.headers) + len(r.headers) ==> at(r.headers, k).Height() > end
+//@   ensures [C07] still-ok: old(rangeOK(r)) ==> rangeOK(r)
+
+//@ func (*ranges).First(rs)
+//@   trusted
+//@   modifies ranges.ranges
+//@   ensures result1 ==> result0 != nil && len(result0.headers) > 0 && rangeOK(result0) && result0.start >= 1
+//@   ensures result1 ==> forall k int :: off(result0.headers) <= k && k < off(result0.headers) + len(result0.headers) ==> verified(at(result0.headers, k))
+
+//@ func (*Syncer).processHeaders(s, ctx, fromHead, to)
+//@   props C07, C03
+//@   requires verified(fromHead) && to < MaxUint64
+//@   modifies AP_set, AP_val_Hdr, ghost:storeAppends, ghost:appendedTop, errNonAdjacent.Head, errNonAdjacent.Attempted, $now, ranges.ranges, headerRange.headers, headerRange.start
+//@   ensures [C07] reaches-target: result == nil && fromHead.Height() < to ==> appendedTop == to
+//@ loop 0:
+//@   invariant [C07] progress: (fromHead.Height() <= to || fromHead.Height() == old(fromHead).Height()) && verified(fromHead)
+//@   invariant [C07] appended: fromHead.Height() == old(fromHead).Height() || appendedTop == fromHead.Height()
+
+//@ func (*Syncer).doSync(s, ctx, fromHead, toHead)
+//@   props C07
+//@   requires verified(fromHead) && toHead.Height() < MaxUint64
+//@   modifies AP_set, AP_val_Hdr, ghost:storeAppends, ghost:appendedTop, errNonAdjacent.Head, errNonAdjacent.Attempted, $now, ranges.ranges, headerRange.headers, headerRange.start, State.ID, State.FromHeight, State.ToHeight, State.FromHash, State.ToHash, State.Start, State.End, State.Error
+//@   ensures [C07] reaches-target: result == nil && fromHead.Height() < toHead.Height() ==> appendedTop == toHead.Height()
+//@   ensures [C07] state-cleared: result == nil ==> s.state.Error == ""
+//@   ensures [C07] state-range: s.state.ToHeight == toHead.Height() && s.state.FromHeight == u64(fromHead.Height() + 1)
